@@ -243,3 +243,60 @@ func (e *Evidence) Write(path string) error {
 	}
 	return os.Rename(tmp, path)
 }
+
+// EnvNames: the process-environment seam. check.sh lists the environment variables the code under test reads
+// (string literals passed to os.Getenv / os.LookupEnv in its non-test sources) in VERIF_ENVNAMES; none at the pinned
+// commit. The simulators set a seeded subset of them around a share of their cases, recorded in the case.
+func EnvNames() []string {
+	var out []string
+	for _, n := range strings.Split(os.Getenv("VERIF_ENVNAMES"), ",") {
+		if n = strings.TrimSpace(n); n != "" {
+			out = append(out, n)
+		}
+	}
+	sort.Strings(out)
+	return out
+}
+
+// DrawEnv picks, from h (any deterministic hash of the case's position), the environment of a case: nil for three
+// cases in four and when the code reads no variables.
+func DrawEnv(names []string, h uint64) map[string]string {
+	if len(names) == 0 || h%4 != 0 {
+		return nil
+	}
+	h /= 4
+	vals := []string{"1", "true", "0", "", "2", "debug", "on", "yes", "all", "x"}
+	env := map[string]string{}
+	for i, n := range names {
+		if len(names) == 1 || (h>>uint(i%16))&1 == 1 {
+			env[n] = vals[(h/7+uint64(i))%uint64(len(vals))]
+		}
+	}
+	return env
+}
+
+// ApplyEnv sets the variables and returns the function that restores what was there before.
+func ApplyEnv(env map[string]string) func() {
+	if len(env) == 0 {
+		return func() {}
+	}
+	type old struct {
+		v  string
+		ok bool
+	}
+	prev := map[string]old{}
+	for k, v := range env {
+		pv, ok := os.LookupEnv(k)
+		prev[k] = old{pv, ok}
+		os.Setenv(k, v)
+	}
+	return func() {
+		for k, o := range prev {
+			if o.ok {
+				os.Setenv(k, o.v)
+			} else {
+				os.Unsetenv(k)
+			}
+		}
+	}
+}
